@@ -40,6 +40,9 @@ var c14RegTmpls = []c14Tmpl{
 	{"G;Sn", [][]string{{"get", "setneg"}}, []string{"cold"}},
 	{"S;Sn", [][]string{{"set", "setneg"}}, []string{"absent"}},
 	{"St", [][]string{{"settiny"}}, []string{"warm"}},
+	// TTL refresh (SetExpiration) racing with a write / delete of the same key
+	{"T|S", [][]string{{"touch"}, {"set"}}, []string{"warm"}},
+	{"T|D", [][]string{{"touch"}, {"del"}}, []string{"warm"}},
 }
 
 var c14NegTTLs = []string{"neg1ns", "neg1s", "past"}
@@ -153,7 +156,7 @@ func c14ScenariosOn(topos []c14Topo, tmpls []c14Tmpl, list bool) []*c14Scenario 
 }
 
 type c14Budget struct {
-	explore, random, faultExplore, faultRandom int
+	explore, random, faultExplore, faultRandom, faultClassExplore int
 }
 
 type c14Agg struct {
@@ -169,7 +172,7 @@ func (a *c14Agg) add(sc *c14Scenario, fault *c14Fault, s *vk.Sched, out *c14Outc
 	run.Eval(1)
 	fs := "-"
 	if fault != nil {
-		fs = fmt.Sprintf("%s#%d", fault.Thread, fault.Idx)
+		fs = fmt.Sprintf("%s#%d%s", fault.Thread, fault.Idx, fault.Class)
 	}
 	if out.Stalls > 0 {
 		run.Count("sched_stalls", int64(out.Stalls))
@@ -198,6 +201,9 @@ func (a *c14Agg) add(sc *c14Scenario, fault *c14Fault, s *vk.Sched, out *c14Outc
 		run.Count("runs_faultfree", 1)
 	} else if out.FaultHit {
 		run.Count("fault_hits", 1)
+		if fault.Class != "" {
+			run.Count("fault_hits|"+fault.Class, 1)
+		}
 	} else {
 		run.Count("fault_not_reached", 1)
 	}
@@ -215,6 +221,9 @@ func (a *c14Agg) add(sc *c14Scenario, fault *c14Fault, s *vk.Sched, out *c14Outc
 			cls = "negative"
 		}
 		run.Count("ttl_sets_judged|"+cls, int64(c))
+	}
+	if out.TouchRace {
+		run.Count("touch_concurrent_with_mutation", 1)
 	}
 	if out.Concurrent {
 		run.Count("list_updates_concurrent|"+cat, 1)
@@ -292,6 +301,10 @@ func c14RunScenario(run *vk.Run, sc *c14Scenario, b c14Budget, agg *c14Agg) {
 			run.Count("fault_positions", 1)
 			explore(1, b.faultExplore, f)
 			random(b.faultRandom, f)
+			// error-class dimension: the same position failing with a timeout-class error
+			for _, cls := range []string{"timeout", "deadline"} {
+				explore(1, b.faultClassExplore, &c14Fault{Thread: th, Idx: idx, Class: cls})
+			}
 		}
 	}
 }
@@ -435,7 +448,7 @@ func TestVerifC14Register(t *testing.T) {
 	run := vk.Start(t, "C14", "register-linearizability")
 	defer run.Finish()
 	run.Rule(c14Rule + "; oracle: porcupine register-with-delete over logical-time history incl. epilogue probes on both nodes; tier-routing monitor")
-	b := c14Budget{explore: run.Pick(60, 3000), random: run.Pick(6, 100), faultExplore: run.Pick(3, 200), faultRandom: run.Pick(1, 10)}
+	b := c14Budget{explore: run.Pick(60, 3000), random: run.Pick(6, 100), faultExplore: run.Pick(3, 200), faultRandom: run.Pick(1, 10), faultClassExplore: run.Pick(1, 20)}
 	scs := c14Scenarios(c14RegTmpls, false)
 	c14Drive(t, run, scs, b)
 	run.Floor("runs_judged", int64(run.Pick(5000, 50000)))
@@ -445,6 +458,9 @@ func TestVerifC14Register(t *testing.T) {
 	run.Floor("key_prefixes_covered", 36)
 	run.Floor("ttl_sets_judged|negative", 200)
 	run.Floor("ttl_sets_judged|tiny", 50)
+	run.Floor("touch_concurrent_with_mutation", 200)
+	run.Floor("fault_hits|timeout", 300)
+	run.Floor("fault_hits|deadline", 300)
 	run.Floor("window_miss_then_mutation|persistent", 1)
 	run.Floor("window_miss_then_mutation|sharedpersistent", 1)
 }
@@ -454,7 +470,7 @@ func TestVerifC14List(t *testing.T) {
 	run := vk.Start(t, "C14", "list-updates")
 	defer run.Finish()
 	run.Rule(c14Rule + "; oracle: after quiescence every member appended by a call that returned nil is present on every probed node, every removed one absent, initial members kept; concurrent GetList must hold all members whose append had returned; tier-routing monitor")
-	b := c14Budget{explore: run.Pick(60, 3000), random: run.Pick(6, 100), faultExplore: run.Pick(3, 200), faultRandom: run.Pick(1, 10)}
+	b := c14Budget{explore: run.Pick(60, 3000), random: run.Pick(6, 100), faultExplore: run.Pick(3, 200), faultRandom: run.Pick(1, 10), faultClassExplore: run.Pick(1, 20)}
 	scs := c14Scenarios(c14ListTmpls, true)
 	scs = append(scs, c14ScenariosOn([]c14Topo{{Name: "rawmem", Persist: true, Raw: true}}, c14RawListTmpls, true)...)
 	c14Drive(t, run, scs, b)
